@@ -256,3 +256,5 @@ def run(chk):
     dxlog_series(chk)
     from . import C11c
     C11c.run(chk, mod, lib)
+    from . import C11d
+    C11d.run(chk)
